@@ -611,6 +611,8 @@ void TMCG_Bigint::powm_ui
 {
 	if (secret) // TODO: use constant-time function
 	{
+		if (!base.secret || !mod.secret)
+			throw std::invalid_argument("TMCG_Bigint::operation not supported");
 		gcry_mpi_t e = gcry_mpi_new(8);
 		gcry_mpi_set_ui(e, exp);
 		gcry_mpi_powm(secret_bigint, base.secret_bigint, e,	mod.secret_bigint);
